@@ -369,20 +369,47 @@ func marshalStructWithMap[T any](s *T, mapField string) ([]byte, error) {
 // Here jsonNames also returns fields from embedded structs, hence this function
 // handles embedded structs as well.
 func unmarshalStructWithMap[T any](data []byte, v *T, mapField string) error {
-	// Unmarshal into the struct, ignoring unknown fields.
+	// encoding/json matches object keys to struct fields case-insensitively, but
+	// JSON Schema keywords are case-sensitive: "Type" is not "type", it is an
+	// unknown keyword. So split the object into the members whose key is exactly
+	// a field's JSON name, which go to the struct, and the rest, which go to the map.
+	var raw map[string]json.RawMessage
+	if err := json.Unmarshal(data, &raw); err != nil {
+		return err
+	}
+	names := jsonNames(reflect.TypeFor[T]())
+	var extra map[string]json.RawMessage
+	for k, val := range raw {
+		if !names[k] {
+			if extra == nil {
+				extra = map[string]json.RawMessage{}
+			}
+			extra[k] = val
+			delete(raw, k)
+		}
+	}
+	if extra != nil {
+		// Re-encode only the known members.
+		var err error
+		data, err = json.Marshal(raw)
+		if err != nil {
+			return err
+		}
+	}
+	// Unmarshal into the struct.
 	if err := json.Unmarshal(data, v); err != nil {
 		return err
 	}
-	// Unmarshal into the map.
-	m := map[string]any{}
-	if err := json.Unmarshal(data, &m); err != nil {
-		return err
-	}
-	// Delete from the map the fields of the struct.
-	for n := range jsonNames(reflect.TypeFor[T]()) {
-		delete(m, n)
-	}
-	if len(m) != 0 {
+	if extra != nil {
+		// Unmarshal the remaining members into the map.
+		m := make(map[string]any, len(extra))
+		for k, val := range extra {
+			var x any
+			if err := json.Unmarshal(val, &x); err != nil {
+				return err
+			}
+			m[k] = x
+		}
 		reflect.ValueOf(v).Elem().FieldByName(mapField).Set(reflect.ValueOf(m))
 	}
 	return nil
